@@ -279,6 +279,14 @@ class Parser:
 
         element = Class(**parameters, **subcircuits)
         element.set_label(label)
+        # Make it possible to apply limits that do not overlap with the default limits
+        element._remove_limits(
+            *[
+                k
+                for k in parameters
+                if not (isnan(lower_limits[k]) or isnan(upper_limits[k]))
+            ]
+        )
         element.set_lower_limits(
             **{k: v for k, v in lower_limits.items() if not isnan(v)}
         )
